@@ -6,11 +6,12 @@
 int snprintf(char *str, size_t size, const char *fmt, unsigned char v)
 {
     __CPROVER_assert(fmt[0] == '%' && fmt[1] == '%' && fmt[2] == '%' && fmt[3] == '0' && fmt[4] == '2' &&
-                     fmt[5] == 'X' && fmt[6] == 0, "snprintf stub: only the %%%02X format is modelled");
+                     (fmt[5] == 'X' || fmt[5] == 'x') && fmt[6] == 0, "stub: snprintf models only the %%%02X / %%%02x formats");
+    char a = (char)(fmt[5] == 'X' ? 'A' : 'a');
     char tmp[3];
     tmp[0] = '%';
-    tmp[1] = (char)((v >> 4) < 10 ? '0' + (v >> 4) : 'A' + ((v >> 4) - 10));
-    tmp[2] = (char)((v & 15) < 10 ? '0' + (v & 15) : 'A' + ((v & 15) - 10));
+    tmp[1] = (char)((v >> 4) < 10 ? '0' + (v >> 4) : a + ((v >> 4) - 10));
+    tmp[2] = (char)((v & 15) < 10 ? '0' + (v & 15) : a + ((v & 15) - 10));
     if (size >= 1) str[0] = size > 1 ? tmp[0] : 0;
     if (size >= 2) str[1] = size > 2 ? tmp[1] : 0;
     if (size >= 3) str[2] = size > 3 ? tmp[2] : 0;
